@@ -338,6 +338,8 @@ impl Lock {
             judge_cost: false,
             window: 8,
         };
+        // under Miri the 2 x 2 MiB tagging loops would dominate the run: keep memory zero-filled
+        let pass = if cfg!(miri) { None } else { pass };
         if let Some(p) = pass {
             for (ri, (lo, _hi, name)) in REGIONS.iter().enumerate() {
                 if name.starts_with("io") {
